@@ -1,5 +1,6 @@
 //! fv — conformance / exploration harness for caio/foca (see /verif/DESIGN.md)
 mod c01;
+mod c11;
 mod c14;
 mod cfgsweep;
 mod cluster;
@@ -87,6 +88,12 @@ fn main() {
             };
             tw.flush();
             println!("{}", cov.json(&tw));
+            return;
+        }
+        "c11" => {
+            let n = c11::run(&mut tw);
+            tw.flush();
+            println!("{{\"events\":{},\"panics\":{},\"cov_cases\":{}}}", tw.events, tw.panics, n);
             return;
         }
         "replay" => {
